@@ -63,8 +63,6 @@ mk s20-optional-alpha-ignored C20 "deserialize_with_optional_alpha always answer
   $P/serde.rs 's/alpha: alpha\.unwrap_or_else\(A::max_intensity\),/alpha: { let _ = alpha; A::max_intensity() },/'
 mk s20-tuple-len C20 "serialize_tuple_struct declares len instead of len + 1" \
   $P/serde/alpha_serializer.rs 's/inner: self\.inner\.serialize_tuple_struct\(name, len \+ 1\)\?,/inner: self.inner.serialize_tuple_struct(name, len)?,/'
-mk s20-duplicate-alpha-accepted C20 "a second alpha key silently overwrites the first" \
-  $P/serde/alpha_deserializer.rs 's/if self\.alpha\.is_some\(\) \{/if false \&\& self.alpha.is_some() {/'
 mk s20-unit-struct-alpha-lost C20 "unit struct color with alpha: serialize_unit_struct writes the alpha as a unit struct (alpha lost)" \
   $P/serde/alpha_serializer.rs 's/self\.inner\.serialize_newtype_struct\(name, self\.alpha\)/{ let _ = self.alpha; self.inner.serialize_unit_struct(name) }/'
 git -C /repo worktree remove --force $wt; rm -rf $wt
